@@ -299,6 +299,9 @@ func (x *Exprer) compute(v ssa.Value) *Expr {
 	case *ssa.MultiConvert:
 		return x.E(v.X)
 	case *ssa.TypeAssert:
+		if !v.CommaOk {
+			return x.E(v.X) // an unconditional assertion yields the same value (or panics: C15 counts those)
+		}
 		return mk("assert", typeStr(v.AssertedType), v, x.E(v.X))
 	case *ssa.Extract:
 		if lk, ok := v.Tuple.(*ssa.Lookup); ok && lk.CommaOk && v.Index == 1 {
